@@ -52,7 +52,7 @@ impl SingleExecMatcher {
 }
 
 impl Matcher for SingleExecMatcher {
-    fn matches(&self, file_info: &WalkEntry, _: &mut MatcherIO) -> bool {
+    fn matches(&self, file_info: &WalkEntry, matcher_io: &mut MatcherIO) -> bool {
         let mut command = Command::new(&self.executable);
         let path_to_file = if self.exec_in_parent_dir {
             if file_info.parent().is_some() {
@@ -84,6 +84,8 @@ impl Matcher for SingleExecMatcher {
                 }
             }
         }
+        // What was printed so far comes before anything the command prints.
+        let _ = matcher_io.deps.get_output().borrow_mut().flush();
         match command.status() {
             Ok(status) => status.success(),
             Err(e) => {
@@ -129,6 +131,8 @@ impl MultiExecMatcher {
     }
 
     fn run_command(&self, command: &mut argmax::Command, matcher_io: &mut MatcherIO) {
+        // What was printed so far comes before anything the command prints.
+        let _ = matcher_io.deps.get_output().borrow_mut().flush();
         match command.status() {
             Ok(status) => {
                 if !status.success() {
